@@ -36,6 +36,7 @@ RULE += " Round 8: top-level string keys that look like numbers without being st
 RULE += ' Round 9: tables of 1100-2100 rows in which one field is given only in the last ten rows.'
 RULE += ' Round 10: tables written under .CSV / .TSV / .txt / no extension; cells containing line feeds and empty lines.'
 RULE += ' Round 11: NumPy scalars as parameter values.'
+RULE += ' Round 14: float16/float32 scalars that are not short decimals (the loaded value is exactly .item()).'
 RULE += ' Round 13: backslashes in cells; the target folder removed between two saves.'
 EXHAUSTIVE = {'quick': True, 'thorough': True}
 EXHAUSTIVE_SCOPE = {'quick': 'array matrix (dtype x rank x layout x length) exhaustive; dictionaries, '
@@ -115,8 +116,11 @@ def rand_value(rng, depth=0):
     if k == 5:
         return WORDS[int(rng.integers(0, len(WORDS)))]
     if k == 6:
+        # (round 14: float16 / float32 scalars that are not short decimals - the value that comes back is .item(),
+        # the exact double of the narrow value, not the double nearest to its shortest decimal spelling)
         return [np.int64(7), np.float32(1.5), np.uint8(200), np.float64(np.nan), np.bool_(True),
-                np.int16(-3)][int(rng.integers(0, 6))]
+                np.int16(-3), np.float32(0.1), np.float16(0.3), np.float32(rng.normal() * 100),
+                np.float16(rng.normal())][int(rng.integers(0, 10))]
     if k == 7:
         return make_array(DTYPES[int(rng.integers(0, len(DTYPES)))], int(rng.integers(0, 4)),
                           LAYOUTS[int(rng.integers(0, 4))], [0, 1, 2, 9, 10, 11, 12, 30][int(rng.integers(0, 8))], rng)
